@@ -43,6 +43,34 @@ CLAIMED = {
             "text": "For every graph x weighting x k the algorithm object is constructed and its private spanner, edge translation map and dropped-edge list "
                     "are checked: partition of E, weights copied, stretch <= 2k-1 through lighter retained edges (BFS), girth > 2k.",
             "note": _EXACT_NOTE + "; private members read with -fno-access-control"},
+    "C12": {"level": "exploration", "design_ref": "DESIGN.md section 3, C12",
+            "technique": "bounded exhaustive input-space enumeration (graphs x weightings x sources x vertex pairs) against Floyd-Warshall",
+            "text": "One SPTree per source on every graph of the bound and on tie-heavy families; distances, tree shape, first-in-path and the cross-tree "
+                    "reversal / sub-path consistency are checked for all ordered vertex pairs.",
+            "note": "trusted: own Floyd-Warshall and path walker; bounded to n<=7 plus named families"},
+    "C13": {"level": "exploration", "design_ref": "DESIGN.md section 3, C13",
+            "technique": "bounded exhaustive input-space enumeration of all labelled graphs with a union-find acyclicity oracle",
+            "text": "greedy_fvs on every labelled graph up to the bound and on named families; output vertices valid and distinct, remainder acyclic, empty for forests.",
+            "note": "trusted: union-find; bounded to n<=7 (8 with m<=11) plus families"},
+    "C14": {"level": "exploration", "design_ref": "DESIGN.md section 3, C14",
+            "technique": "bounded exhaustive input-space enumeration with per-candidate structural oracle and GF(2) greedy sufficiency test against the reference optimum",
+            "text": "Horton/FVS/ISO builders called directly on every graph x weighting of the bound: each candidate is a simple cycle through its root with the recorded weight, "
+                    "FVS and ISO are sub-collections of Horton, and each collection contains a minimum basis.",
+            "note": _EXACT_NOTE},
+    "C16": {"level": "exploration", "design_ref": "DESIGN.md section 3, C16",
+            "technique": "bounded exhaustive input-space enumeration of all labelled graphs and all edge insertion orders",
+            "text": "ForestIndex on every labelled graph of the bound (and every insertion order for small graphs): bijection, inverse lookups, component count, dimension, forest flag, spanning forest.",
+            "note": "trusted: union-find; bounded to n<=7 plus families"},
+    "C17": {"level": "model_checking", "design_ref": "DESIGN.md section 3, C17",
+            "technique": "explicit-state BFS to a fixpoint over the real SpVecGF2 objects (state = concrete private vectors), dense-bitmask reference model as oracle",
+            "text": "All reachable states of 3 registers over a small coordinate alphabet under every public operation; canonical form and all observations checked after every transition; "
+                    "states and transitions are exact counts of the reachable space.",
+            "note": "the implementation itself is the transition relation (no abstract model); private state read/restored with -fno-access-control; dimension bounded"},
+    "C18": {"level": "model_checking", "design_ref": "DESIGN.md section 3, C18",
+            "technique": "explicit-state BFS to a fixpoint over real SpVecFP objects plus complete enumeration of argument boxes for ext_gcd / get_mult_inverse / is_prime",
+            "text": "Every (a,b) of a box for ext_gcd and get_mult_inverse, every p up to a bound for is_prime, for int/long/cpp_int; every reachable state of two SpVecFP registers for p in {2,3,5,7} "
+                    "under all operations and all scalars in [-p-1,2p+1].",
+            "note": "integer extremes of built-in types excluded; the implementation itself is the transition relation"},
 }
 for k in CLAIMED:
     ENGINES[0]["serves_properties"].append(k)
